@@ -29,14 +29,15 @@ def install_stubs(alg):
 
 class Part:
     def __init__(self, alg, n, k, obj=None, order='any', pres='nv', lo=0, checks=('c01',), fixed=None, cg_mask=None,
-                 iterations=None, extra=None):
+                 iterations=None, extra=None, groups=None):
+        self.groups = groups
         self.alg = alg; self.n = n; self.k = k; self.obj = obj; self.order = order; self.pres = pres; self.lo = lo
         self.checks = tuple(checks); self.fixed = {int(a): b for a, b in (fixed or {}).items()}
         self.kw = alg_kwargs(alg, obj, cg_mask, iterations, extra)
         self.n = n if not fixed or n else n
 
     def setup(self, c):
-        idx = item_vars(c, self.n, self.lo, self.order, fixed=self.fixed)
+        idx = item_vars(c, self.n, self.lo, self.order, fixed=self.fixed, groups=self.groups)
         c.ns['x'] = [c.zvars[i] for i in idx]
         c.ns['k'] = self.k
         return (idx,)
@@ -136,6 +137,8 @@ def tierb(prop, alg, vector, k, holes, mandatory=True, **kw):
 def job(prop, alg, n, k, mandatory=True, **kw):
     params = dict(alg=alg, n=n, k=k, **kw)
     tag = ' '.join('%s=%s' % (a, b) for a, b in sorted(kw.items()) if a not in ('checks', 'fixed') and b not in (None,))
+    if kw.get('groups'):
+        tag = 'tierC ' + tag
     j = {'id': '%s (%d,%d) %s' % (alg, n, k, tag), 'factory': 'harness.part:make', 'params': params}
     if not mandatory:
         j['mandatory'] = False
